@@ -30,6 +30,7 @@ func main() {
 	flag.IntVar(&o.Workers, "workers", 1, "number of workers")
 	flag.Float64Var(&o.BudgetS, "budget", 5, "wall-clock budget in seconds")
 	flag.Int64Var(&o.MaxCases, "cases", 0, "run exactly this many cases (overrides budget)")
+	flag.Int64Var(&o.UpTo, "upto", -1, "run loop steps 0..N and stop (sequence replay)")
 	flag.StringVar(&o.Tier, "tier", "quick", "tier")
 	flag.StringVar(&o.OutDir, "outdir", "", "scratch directory for worker output")
 	flag.StringVar(&o.SourceHash, "srchash", "", "hash of the source tree this binary was built from")
